@@ -738,7 +738,8 @@ func (vfs *MemFS) RemoveAll(path string) error {
 	parent.mu.Lock()
 	defer parent.mu.Unlock()
 
-	if c, ok := child.(*dirNode); ok && len(c.children) != 0 {
+	if c, ok := child.(*dirNode); ok {
+		// removeAll locks the directory before reading its content.
 		err = vfs.removeAll(c)
 		if err != nil {
 			return &fs.PathError{Op: op, Path: path, Err: err}
@@ -750,7 +751,10 @@ func (vfs *MemFS) RemoveAll(path string) error {
 	}
 
 	parent.removeChild(pi.Part())
+
+	child.Lock()
 	child.delete()
+	child.Unlock()
 
 	return nil
 }
@@ -758,6 +762,10 @@ func (vfs *MemFS) RemoveAll(path string) error {
 func (vfs *MemFS) removeAll(parent *dirNode) error {
 	parent.mu.Lock()
 	defer parent.mu.Unlock()
+
+	if len(parent.children) == 0 {
+		return nil
+	}
 
 	if ok := parent.checkPermission(avfs.OpenWrite, vfs.User()); !ok {
 		return vfs.err.PermDenied
@@ -771,7 +779,9 @@ func (vfs *MemFS) removeAll(parent *dirNode) error {
 			}
 		}
 
+		child.Lock()
 		child.delete()
+		child.Unlock()
 	}
 
 	return nil
